@@ -154,13 +154,80 @@ def chunk_completion(chk):
     oblig.run_obligations(chk, obs)
 
 
+def authenticated_bytes(chk):
+    """GCM and EAX authenticate the ciphertext, CCM the plaintext (SP 800-38D 7, EAX 2, SP 800-38C 6): when run() completes a
+    partially filled block across calls, the bytes it parks in ctx->buf for the authenticator must be the ciphertext (GCM, EAX) or
+    the plaintext (CCM) in *both* directions.  Decided by partial evaluation of the three run() functions with 5 bytes already in the
+    block, 3 more supplied, encrypt fixed to 1 and to 0."""
+    from ..oblig import FieldLoad
+    R = 'aead-authenticated-bytes'
+    n = 0
+    for mode, src, st, statef, auth in (('gcm', 'src/aead/gcm.c', 'br_gcm_context', 'count_ctr', 'ciphertext'),
+                                        ('eax', 'src/aead/eax.c', 'br_eax_context', 'ptr', 'ciphertext'),
+                                        ('ccm', 'src/aead/ccm.c', 'br_ccm_context', 'ptr', 'plaintext')):
+        U = oblig.funit(src)
+        L = irf.Layouts(U.unit)
+        fn = 'br_%s_run' % mode
+        F = U.func(fn)
+        o_state = L.field(st, statef)[0]
+        o_buf = L.field(st, 'buf')[0]
+        loads = U.field_loads(fn, 0, o_state)
+        if not loads:
+            raise AnalysisBroken('%s: no load of %s' % (fn, statef))
+        for enc in (1, 0):
+            hy = [dict(kind='pin', n=x['n'], value=5) for x in loads]
+            hy.append(dict(kind='assume', n=F.f['params'][3]['n'], ty=F.f['params'][3]['ty'], pred='eq', value=3, param=True))
+            hy.append(dict(kind='assume', n=F.f['params'][1]['n'], ty=F.f['params'][1]['ty'], pred='eq', value=enc, param=True))
+            Fo = U.optimise(fn, hy, (), 'default<O1>')
+
+            def strip(o):
+                while o['k'] == 'i' and Fo.insts[o['v']]['op'] in ('zext', 'sext', 'trunc'):
+                    o = Fo.insts[o['v']]['ops'][0]
+                if o['k'] == 'i' and Fo.insts[o['v']]['op'] == 'and' and any(q['k'] == 'c' and q['v'] == 255 for q in Fo.insts[o['v']]['ops']):
+                    return strip(next(q for q in Fo.insts[o['v']]['ops'] if q['k'] != 'c'))
+                return o
+
+            def is_load_of(o, base, off):
+                o = strip(o)
+                if o['k'] != 'i' or Fo.insts[o['v']]['op'] != 'load':
+                    return False
+                b, of = Fo.addr_of(Fo.insts[o['v']]['ops'][0])
+                return b == base and of == off
+            kinds = {}
+            for i in Fo.insts.values():
+                if i['op'] != 'store':
+                    continue
+                b, of = Fo.addr_of(i['ops'][1])
+                if b != {'k': 'a', 'v': 0} or of is None or not (o_buf + 5 <= of < o_buf + 8):
+                    continue
+                u = of - o_buf - 5
+                v = strip(i['ops'][0])
+                if is_load_of(v, {'k': 'a', 'v': 2}, u):
+                    kinds[u] = 'input'
+                elif v['k'] == 'i' and Fo.insts[v['v']]['op'] == 'xor' and \
+                        any(is_load_of(q, {'k': 'a', 'v': 2}, u) for q in Fo.insts[v['v']]['ops']) and \
+                        any(is_load_of(q, {'k': 'a', 'v': 0}, of) for q in Fo.insts[v['v']]['ops']):
+                    kinds[u] = 'output'
+                else:
+                    kinds[u] = 'other'
+            want = 'output' if (auth == 'ciphertext') == bool(enc) else 'input'
+            n += 1
+            inst = '%s (%s): the bytes parked for the authenticator are the %s (= the %s bytes of this call)' % (fn, 'encrypt' if enc else 'decrypt', auth, want)
+            if kinds == {0: want, 1: want, 2: want}:
+                chk.ok(R, inst, src)
+            else:
+                chk.violation(R, inst, src, 'with 5 bytes buffered and 3 supplied, ctx->buf[5..8) receives %s bytes: the tag is computed over the wrong text for a block '
+                              'that straddles two run() calls' % (kinds or 'no'), key='%s %s %d' % (R, mode, enc))
+    chk.floor('authenticated-text cases', n, 6)
+
+
 def run(tier):
     chk = report.Check('C14', tier,
                        'Static: br_ccm_reset returns 0 (and reaches no block-cipher call) under each forbidden parameter range of RFC 3610 / '
                        'SP 800-38C (nonce < 7, > 13, tag < 4, > 16, odd tag, length not representable); the tag verdict of GCM, EAX and CCM is '
                        'EQ0 of an OR-accumulation of computed[u] ^ caller[u] over the full requested length, the computed tag being the buffer '
                        'filled by get_tag; check_tag delegates to check_tag_trunc with 16; in the AAD injection of the three modes a block completed across calls always '
-                       'reaches the authenticator (GHASH / CBC-MAC), directly or through the mode\'s pending-block state. NOT decided: ciphertext/tag values, '
+                       'reaches the authenticator (GHASH / CBC-MAC), directly or through the mode\'s pending-block state; a block straddling two run() calls is authenticated as ciphertext (GCM, EAX) / plaintext (CCM) in both directions. NOT decided: ciphertext/tag values, '
                        'full call-splitting invariance (only the block-completion step), decrypt-inverts-encrypt.',
                        trusted=['clang/opt 14', 'sa/fold.py'])
     s = 'src/aead/ccm.c'
@@ -215,5 +282,6 @@ def run(tier):
     tag_compare_shape(chk, 'src/aead/eax.c', 'br_eax_check_tag_trunc', 'br_eax_get_tag', 'len')
     tag_compare_shape(chk, 'src/aead/ccm.c', 'br_ccm_check_tag', 'br_ccm_get_tag', 'get_tag()')
     chunk_completion(chk)
+    authenticated_bytes(chk)
     chk.floor('obligations', len(chk.obls), 18)
     return chk.finish()
